@@ -2,6 +2,11 @@ use kvarn::prelude::*;
 use std::sync::{Arc, Barrier};
 
 fn main() {
+    match std::env::args().nth(1).as_deref() {
+        Some("dekker") => return dekker(),
+        Some("wakers") => return wakers(),
+        _ => {}
+    }
     let callers: usize = std::env::args().nth(1).and_then(|s| s.parse().ok()).unwrap_or(3);
     let body = Bytes::from((0..400u32).map(|i| (i % 7) as u8 + b'a').collect::<Vec<u8>>());
     let mut resp = Response::new(body.clone());
@@ -37,4 +42,111 @@ fn main() {
         assert!(o.0.len() > 10 && o.1.len() > 4);
     }
     println!("memo-miri-ok callers={callers}");
+}
+
+/// C10: `shutdown()` (store the flag, then read the count) against the last `remove_connection()` (decrement the count, then
+/// read the flag), released together. Whoever comes second must start the completion: `wait()` resolves.
+fn dekker() {
+    let rounds: usize = std::env::args().nth(2).and_then(|s| s.parse().ok()).unwrap_or(4);
+    for round in 0..rounds {
+        let rt = tokio::runtime::Builder::new_current_thread().build().unwrap();
+        let mgr = Arc::new(unsafe { kvarn::shutdown::Manager::new(0) });
+        mgr.add_connection();
+        let seq = std::env::args().nth(3).as_deref() == Some("seq");
+        let bar = Arc::new(Barrier::new(2));
+        let (m1, b1, h1) = (mgr.clone(), bar.clone(), rt.handle().clone());
+        let a = std::thread::spawn(move || {
+            let _g = h1.enter();
+            if !seq {
+                b1.wait();
+            }
+            m1.shutdown();
+        });
+        let (m2, b2, h2) = (mgr.clone(), bar.clone(), rt.handle().clone());
+        let b = std::thread::spawn(move || {
+            let _g = h2.enter();
+            b2.wait();
+            m2.remove_connection();
+        });
+        if std::env::args().nth(3).as_deref() == Some("seq") {
+            // control: one after the other (the join orders them)
+            a.join().unwrap();
+            bar.wait();
+            b.join().unwrap();
+        } else {
+            a.join().unwrap();
+            b.join().unwrap();
+        }
+        // both calls have returned, no connection is left: the completion must have been started by one of them
+        let done = rt.block_on(async {
+            tokio::select! {
+                biased;
+                () = mgr.wait() => true,
+                () = async { for _ in 0..64 { tokio::task::yield_now().await; } } => false,
+            }
+        });
+        assert!(done, "round {round}: shutdown() and the last remove_connection() both returned, no connection is left, and wait() does not resolve");
+    }
+    println!("dekker-miri-ok rounds={rounds}");
+}
+
+struct CountWake(std::sync::atomic::AtomicUsize);
+impl std::task::Wake for CountWake {
+    fn wake(self: Arc<Self>) {
+        self.0.fetch_add(1, std::sync::atomic::Ordering::SeqCst);
+    }
+}
+
+/// C10: a listener that is polled (registers its waker), accepts (removes it) and is polled again, while another thread
+/// requests the shutdown (drains the slots). No undefined behaviour; a listener that registered and saw no flag is woken.
+fn wakers() {
+    let rounds: usize = std::env::args().nth(2).and_then(|s| s.parse().ok()).unwrap_or(3);
+    for _ in 0..rounds {
+        let rt = tokio::runtime::Builder::new_current_thread().build().unwrap();
+        let mgr = Arc::new(unsafe { kvarn::shutdown::Manager::new(2) });
+        let s0 = mgr.verif_add_waker_slot();
+        let s1 = mgr.verif_add_waker_slot();
+        // a connection is open, so that shutdown() only sets the flag and notifies
+        mgr.add_connection();
+        let bar = Arc::new(Barrier::new(2));
+        let wk = Arc::new(CountWake(std::sync::atomic::AtomicUsize::new(0)));
+        let (m1, b1, w1) = (mgr.clone(), bar.clone(), wk.clone());
+        let l = std::thread::spawn(move || {
+            // what AcceptFuture's poll_fn and AcceptManager::accept do, for two listeners on one thread
+            let mut pending_unflagged = false;
+            m1.verif_set_waker(s0, std::task::Waker::from(w1.clone()));
+            b1.wait();
+            for i in 0..3 {
+                if m1.get_shutdown(std::sync::atomic::Ordering::Acquire) {
+                    break;
+                }
+                m1.verif_set_waker(s1, std::task::Waker::from(w1.clone()));
+                if m1.get_shutdown(std::sync::atomic::Ordering::Acquire) {
+                    break;
+                }
+                if i == 2 {
+                    pending_unflagged = true;
+                    break;
+                }
+                // "a connection arrived": accept() returns and clears the slot, the loop polls again
+                m1.verif_remove_waker(s1);
+            }
+            pending_unflagged
+        });
+        let (m2, b2, h2) = (mgr.clone(), bar.clone(), rt.handle().clone());
+        let c = std::thread::spawn(move || {
+            let _g = h2.enter();
+            b2.wait();
+            m2.shutdown();
+        });
+        let pending_unflagged = l.join().unwrap();
+        c.join().unwrap();
+        let woken = wk.0.load(std::sync::atomic::Ordering::SeqCst);
+        // slot 0 was registered before the shutdown began: it is always woken; slot 1 when it went to sleep without seeing the flag
+        assert!(woken >= 1, "the listener parked before shutdown() was not woken");
+        if pending_unflagged {
+            assert!(woken >= 2, "a listener registered its waker, saw no shutdown flag, and was not woken");
+        }
+    }
+    println!("wakers-miri-ok rounds={rounds}");
 }
